@@ -265,6 +265,13 @@ def run(rep: common.Report, tier: str, seed: int, replay=None) -> int:
     for i, n in enumerate(sizes):
         for kind in ("random", "jitter", "grid"):
             specs.append(("delaunay", n, kind, 2 if (i % 2) else 0, [1.0, 1.0, 1e-5, 2e3][(i + len(specs)) % 4]))
+    # structured right-triangle grids (every interior cell has co-circular neighbours: coincident circumcentres) and the smallest
+    # triangulations there are (one triangle, two triangles)
+    for nx_, ny_, sc_ in ((3, 3, 1.0), (5, 4, 1.0), (8, 8, 1e-5), (6, 9, 2e3)) if tier == "quick" else \
+            ((3, 3, 1.0), (5, 4, 1.0), (8, 8, 1e-5), (6, 9, 2e3), (15, 12, 1.0), (20, 20, 0.37)):
+        specs.append(("structured", nx_, ny_, 0, sc_))
+    specs.append(("structured", 1, 1, 0, 1.0))          # one triangle
+    specs.append(("structured", 2, 2, 0, 0.3))          # one square = two triangles
     ndev = 3 if tier == "quick" else 10
     for k in range(ndev):
         specs.append(("device", k % 3, rng.choice([2, 3, 4]), rng.choice([0, 2])))
@@ -273,6 +280,26 @@ def run(rep: common.Report, tier: str, seed: int, replay=None) -> int:
     for mi, spec in enumerate(specs):
         if spec[0] == "delaunay":
             mesh = meshes.delaunay_mesh(rng, spec[1], spec[2], smooth=spec[3], scale=spec[4])
+        elif spec[0] == "structured":
+            from tdgl.finite_volume.mesh import Mesh as _Mesh
+            nx_, ny_, sc_ = spec[1], spec[2], spec[4]
+            if nx_ == 1:
+                pts_, els_ = np.array([[0.0, 0.0], [1.0, 0.1], [0.3, 0.8]]) * sc_, np.array([[0, 1, 2]])
+            else:
+                pts_ = np.array([[i_ * 0.5, j_ * 0.5] for j_ in range(ny_) for i_ in range(nx_)]) * sc_
+                els_ = np.array([t_ for j_ in range(ny_ - 1) for i_ in range(nx_ - 1)
+                                 for t_ in ([j_ * nx_ + i_, j_ * nx_ + i_ + 1, (j_ + 1) * nx_ + i_ + 1],
+                                            [j_ * nx_ + i_, (j_ + 1) * nx_ + i_ + 1, (j_ + 1) * nx_ + i_])])
+            try:
+                mesh = _Mesh.from_triangulation(pts_, els_)
+            except Exception as e:  # noqa: BLE001
+                rep.violation(f"Mesh.from_triangulation refused a valid structured triangulation ({nx_} x {ny_} points, positively "
+                              f"oriented right triangles): {type(e).__name__}: {e}"[:300], {"mesh": mi, "nx": nx_, "ny": ny_, "scale": sc_})
+                continue
+            want_area_ = 0.5 * abs(float((pts_[1] - pts_[0])[0] * (pts_[2] - pts_[0])[1] - (pts_[1] - pts_[0])[1] * (pts_[2] - pts_[0])[0])) if nx_ == 1 else (nx_ - 1) * (ny_ - 1) * 0.25 * sc_ ** 2
+            if abs(float(np.sum(mesh.areas)) - want_area_) > 1e-9 * want_area_:
+                rep.violation("cell areas of a structured triangulation do not add up to the triangulated area",
+                              {"mesh": mi, "nx": nx_, "ny": ny_, "sum": float(np.sum(mesh.areas)), "expected": want_area_})
         else:
             dev = meshes.make_device(rng, holes=spec[1], terminals=spec[2], smooth=spec[3],
                                      max_edge_length=rng.choice([0.5, 0.8]),
